@@ -226,3 +226,17 @@ Theorem C20_lines_independent_of_filesystem :
   = obj_source fs2 (visit_files checkout files lc) filepath lineno endlineno.
 Proof. exact lines_independent_of_filesystem. Qed.
 Print Assumptions C20_lines_independent_of_filesystem.
+
+(* `git worktree remove` resolves an argument that is a NAME against the last path component of every worktree (main,
+   stale and locked ones included): where the removal by the checkout's absolute path -- what tmp_worktree passes --
+   works, the removal by the name of the checkout directory is refused as soon as another worktree of the user's, or the
+   repository directory itself, has that name. *)
+Theorem C20_remove_by_name_refused_where_path_works :
+  forall s p b c d nm name q,
+  fresh p s = true -> has_branch b s = false ->
+  nlookup p (snd nm) = Some name ->
+  (String.eqb (fst nm) name = true \/ (registered q s = true /\ Nat.eqb q p = false /\ nlookup q (snd nm) = Some name)) ->
+  wt_remove_named true nm name (conc s p b c (AFull d)) = None /\
+  wt_remove true p (conc s p b c (AFull d)) = Some (conc s p b c ANoWt).
+Proof. exact remove_by_name_refused_where_path_works. Qed.
+Print Assumptions C20_remove_by_name_refused_where_path_works.
